@@ -186,3 +186,143 @@ Example c16_example :
     snd (rs_run nat nat Nat.eqb idf s1' [RGet nat [DCfg 3%nat; DCfg 7%nat]]) = [Ok (Some 7%nat)] /\
     snd (rs_run nat nat Nat.eqb idf s1 [RGet nat [DCfg 3%nat; DCfg 7%nat]]) = [Ok (Some 7%nat)].
 Proof. eexists. eexists. split; [reflexivity|]. vm_compute. repeat split; reflexivity. Qed.
+
+(* ---------------- dill / pickle half (Tuner.save) -----------------------------------------------
+   From the effect facts REGENERATED from the current source on every run (harness/translate_effects.py ->
+   gen/EffFacts.v, shared with C11; proofs in proofs/PickleFacts.v): for every scheduler configuration that
+   runs here, no class reachable from the scheduler defines a pickle hook (__getstate__, __setstate__,
+   __reduce__, __reduce_ex__, __copy__, __deepcopy__, __getnewargs__[_ex__]) — empty allow-list — so
+   dill.dumps/loads is the default object-graph copy of instance state; and no run-time write to module- or
+   class-level state is reachable (which a pickle would not carry), except the gluon block-name counters of
+   the GP searchers. Finite domain = the generated lists. *)
+From Verif Require Import model.EffGraph proofs.EffGraphProofs gen.EffFacts proofs.PickleFacts.
+
+Theorem c16_dill_identity_fifo_random :
+  NoReachableEffect edges effs off_fifo_random roots_fifo_random pickle_hook allow_no_hook.
+Proof. exact c16_pickle_identity_fifo_random. Qed.
+Print Assumptions c16_dill_identity_fifo_random.
+
+Theorem c16_dill_no_shared_state_write_fifo_random :
+  NoReachableEffect edges effs off_fifo_random roots_fifo_random shared_write allow_no_write.
+Proof. exact c16_no_shared_state_write_fifo_random. Qed.
+Print Assumptions c16_dill_no_shared_state_write_fifo_random.
+
+Theorem c16_dill_identity_fifo_grid :
+  NoReachableEffect edges effs off_fifo_grid roots_fifo_grid pickle_hook allow_no_hook.
+Proof. exact c16_pickle_identity_fifo_grid. Qed.
+Print Assumptions c16_dill_identity_fifo_grid.
+
+Theorem c16_dill_no_shared_state_write_fifo_grid :
+  NoReachableEffect edges effs off_fifo_grid roots_fifo_grid shared_write allow_no_write.
+Proof. exact c16_no_shared_state_write_fifo_grid. Qed.
+Print Assumptions c16_dill_no_shared_state_write_fifo_grid.
+
+Theorem c16_dill_identity_fifo_rea :
+  NoReachableEffect edges effs off_fifo_rea roots_fifo_rea pickle_hook allow_no_hook.
+Proof. exact c16_pickle_identity_fifo_rea. Qed.
+Print Assumptions c16_dill_identity_fifo_rea.
+
+Theorem c16_dill_no_shared_state_write_fifo_rea :
+  NoReachableEffect edges effs off_fifo_rea roots_fifo_rea shared_write allow_no_write.
+Proof. exact c16_no_shared_state_write_fifo_rea. Qed.
+Print Assumptions c16_dill_no_shared_state_write_fifo_rea.
+
+Theorem c16_dill_identity_hyperband_random :
+  NoReachableEffect edges effs off_hyperband_random roots_hyperband_random pickle_hook allow_no_hook.
+Proof. exact c16_pickle_identity_hyperband_random. Qed.
+Print Assumptions c16_dill_identity_hyperband_random.
+
+Theorem c16_dill_no_shared_state_write_hyperband_random :
+  NoReachableEffect edges effs off_hyperband_random roots_hyperband_random shared_write allow_no_write.
+Proof. exact c16_no_shared_state_write_hyperband_random. Qed.
+Print Assumptions c16_dill_no_shared_state_write_hyperband_random.
+
+Theorem c16_dill_identity_synchb_random :
+  NoReachableEffect edges effs off_synchb_random roots_synchb_random pickle_hook allow_no_hook.
+Proof. exact c16_pickle_identity_synchb_random. Qed.
+Print Assumptions c16_dill_identity_synchb_random.
+
+Theorem c16_dill_no_shared_state_write_synchb_random :
+  NoReachableEffect edges effs off_synchb_random roots_synchb_random shared_write allow_no_write.
+Proof. exact c16_no_shared_state_write_synchb_random. Qed.
+Print Assumptions c16_dill_no_shared_state_write_synchb_random.
+
+Theorem c16_dill_identity_dehb :
+  NoReachableEffect edges effs off_dehb roots_dehb pickle_hook allow_no_hook.
+Proof. exact c16_pickle_identity_dehb. Qed.
+Print Assumptions c16_dill_identity_dehb.
+
+Theorem c16_dill_no_shared_state_write_dehb :
+  NoReachableEffect edges effs off_dehb roots_dehb shared_write allow_no_write.
+Proof. exact c16_no_shared_state_write_dehb. Qed.
+Print Assumptions c16_dill_no_shared_state_write_dehb.
+
+Theorem c16_dill_identity_pbt :
+  NoReachableEffect edges effs off_pbt roots_pbt pickle_hook allow_no_hook.
+Proof. exact c16_pickle_identity_pbt. Qed.
+Print Assumptions c16_dill_identity_pbt.
+
+Theorem c16_dill_no_shared_state_write_pbt :
+  NoReachableEffect edges effs off_pbt roots_pbt shared_write allow_no_write.
+Proof. exact c16_no_shared_state_write_pbt. Qed.
+Print Assumptions c16_dill_no_shared_state_write_pbt.
+
+Theorem c16_dill_identity_msr :
+  NoReachableEffect edges effs off_msr roots_msr pickle_hook allow_no_hook.
+Proof. exact c16_pickle_identity_msr. Qed.
+Print Assumptions c16_dill_identity_msr.
+
+Theorem c16_dill_no_shared_state_write_msr :
+  NoReachableEffect edges effs off_msr roots_msr shared_write allow_no_write.
+Proof. exact c16_no_shared_state_write_msr. Qed.
+Print Assumptions c16_dill_no_shared_state_write_msr.
+
+Theorem c16_dill_identity_fifo_bayesopt :
+  NoReachableEffect edges effs off_fifo_bayesopt roots_fifo_bayesopt pickle_hook allow_no_hook.
+Proof. exact c16_pickle_identity_fifo_bayesopt. Qed.
+Print Assumptions c16_dill_identity_fifo_bayesopt.
+
+Theorem c16_dill_no_shared_state_write_fifo_bayesopt :
+  NoReachableEffect edges effs off_fifo_bayesopt roots_fifo_bayesopt shared_write allow_gluon_counters.
+Proof. exact c16_no_shared_state_write_fifo_bayesopt. Qed.
+Print Assumptions c16_dill_no_shared_state_write_fifo_bayesopt.
+
+Theorem c16_dill_identity_hyperband_bayesopt :
+  NoReachableEffect edges effs off_hyperband_bayesopt roots_hyperband_bayesopt pickle_hook allow_no_hook.
+Proof. exact c16_pickle_identity_hyperband_bayesopt. Qed.
+Print Assumptions c16_dill_identity_hyperband_bayesopt.
+
+Theorem c16_dill_no_shared_state_write_hyperband_bayesopt :
+  NoReachableEffect edges effs off_hyperband_bayesopt roots_hyperband_bayesopt shared_write allow_gluon_counters.
+Proof. exact c16_no_shared_state_write_hyperband_bayesopt. Qed.
+Print Assumptions c16_dill_no_shared_state_write_hyperband_bayesopt.
+
+Theorem c16_dill_identity_hyperband_hypertune :
+  NoReachableEffect edges effs off_hyperband_hypertune roots_hyperband_hypertune pickle_hook allow_no_hook.
+Proof. exact c16_pickle_identity_hyperband_hypertune. Qed.
+Print Assumptions c16_dill_identity_hyperband_hypertune.
+
+Theorem c16_dill_no_shared_state_write_hyperband_hypertune :
+  NoReachableEffect edges effs off_hyperband_hypertune roots_hyperband_hypertune shared_write allow_gluon_counters.
+Proof. exact c16_no_shared_state_write_hyperband_hypertune. Qed.
+Print Assumptions c16_dill_no_shared_state_write_hyperband_hypertune.
+
+Theorem c16_dill_identity_hyperband_dyhpo :
+  NoReachableEffect edges effs off_hyperband_dyhpo roots_hyperband_dyhpo pickle_hook allow_no_hook.
+Proof. exact c16_pickle_identity_hyperband_dyhpo. Qed.
+Print Assumptions c16_dill_identity_hyperband_dyhpo.
+
+Theorem c16_dill_no_shared_state_write_hyperband_dyhpo :
+  NoReachableEffect edges effs off_hyperband_dyhpo roots_hyperband_dyhpo shared_write allow_gluon_counters.
+Proof. exact c16_no_shared_state_write_hyperband_dyhpo. Qed.
+Print Assumptions c16_dill_no_shared_state_write_hyperband_dyhpo.
+
+Theorem c16_dill_identity_synchb_bayesopt :
+  NoReachableEffect edges effs off_synchb_bayesopt roots_synchb_bayesopt pickle_hook allow_no_hook.
+Proof. exact c16_pickle_identity_synchb_bayesopt. Qed.
+Print Assumptions c16_dill_identity_synchb_bayesopt.
+
+Theorem c16_dill_no_shared_state_write_synchb_bayesopt :
+  NoReachableEffect edges effs off_synchb_bayesopt roots_synchb_bayesopt shared_write allow_gluon_counters.
+Proof. exact c16_no_shared_state_write_synchb_bayesopt. Qed.
+Print Assumptions c16_dill_no_shared_state_write_synchb_bayesopt.
